@@ -18,9 +18,10 @@ from .c06 import MAY_RAISE, caught, handlers_around
 LEVEL = ("structural clauses: one status test per parsed response, a return is emitted in every status branch under every assignment "
          "of its guards and `return None` only where the plain variants are not generated (truth tables), the unexpected-status tail "
          "(raise or None) is unconditional and the dedicated error's constructor applies no conversion to the body that can raise; the "
-         "media-type classifier, evaluated on its AST for every equals/prefix/suffix combination of its string constants and for every "
-         "(document key, result of get_content_type) pair, returns a source the property statement documents for the parsed type (a type in "
-         "two documented classes, text/x+json, may go to either), each source pairs an httpx accessor with its type and every Response built "
+         "media-type classifier, decided as a truth table (the media type key and the result of get_content_type are abstract strings known "
+         "through the atoms is-None / == / startswith / endswith over the classifier's string literals; every consistent assignment is "
+         "followed along the path it selects), returns a source the property statement documents for the parsed type (a type in two "
+         "documented classes, text/x+json, may go to either), each source pairs an httpx accessor with its type and every Response built "
          "by empty_response carries the none source; every path to property_from_data passes the no-content and no-schema "
          "tests (CFG dominance, guards evaluated); construct-or-cast; a failing type check of a union member aborts decoding only when "
          "nothing can follow it (truth table, flag found by role); _build_response forwards status, content, headers, parsed; "
@@ -108,11 +109,15 @@ def _python_of(frs: list) -> ast.Module | None:
 LENIENT_DECODE = {"ignore", "replace", "backslashreplace", "surrogateescape"}
 
 
-# ---- a concrete evaluator for small pure classifier functions ---------------------------------------------------------------
-# R04.2 asks what `_source_by_content_type` COMPUTES from the media type, not how it is written (lookup table, if-chain, conditional
-# expression, helper predicate ...).  The function is therefore evaluated - on its AST, nothing of the repository is imported or run -
-# for concrete media-type strings; module-level objects that are not literals (the _ResponseSource constants) are opaque symbols
-# compared by identity.  Whatever the evaluator does not model raises _Cannot, which the rule turns into an ANALYSIS-ERROR.
+# ---- a path walker over guard atoms for small pure classifier functions ------------------------------------------------------
+# R04.2 asks what `_source_by_content_type` DECIDES from the media type, not how it is written (lookup table, if-chain, conditional
+# expression, helper predicate ...).  No string is ever run through the code: the media type is an ABSTRACT value (_AStr) of which only
+# the truth values of a finite vocabulary of atoms are known - `x is None`, `x == c`, `x.startswith(c)`, `x.endswith(c)` for the string
+# literals c of the classifier (a dict lookup / membership test is one `x == key` atom per key).  Every test of the code is a formula over
+# these atoms; for one truth assignment the walker follows the path the assignment selects (statements, conditional expressions, any / all
+# over literal tuples, dict lookups, private helpers inlined) to the source symbol it returns.  Module-level objects that are not literals
+# (the _ResponseSource constants) are opaque symbols compared by identity.  A test outside the vocabulary (a computed string, a regular
+# expression, ...) raises _Cannot, which the rule turns into an ANALYSIS-ERROR.
 
 class _Cannot(Exception):
     pass
@@ -122,6 +127,20 @@ class _Cannot(Exception):
 class _Sym:
     name: str
     truthy: "bool | None" = None      # None: truth value unknown
+
+
+@dataclasses.dataclass(frozen=True)
+class _AStr:
+    """an abstract Optional[str]: `tag` names the truth assignment of its atoms in _Eval.facts"""
+    tag: str
+
+
+@dataclasses.dataclass(frozen=True)
+class _ASlice:
+    """x[:n] / x[-n:] of an abstract string: comparable with a literal of length n only (that is the prefix / suffix atom)"""
+    of: _AStr
+    head: bool
+    n: int
 
 
 class _Ret(Exception):
@@ -138,7 +157,8 @@ class _Cnt(Exception):
 
 
 class _Raised(Exception):
-    """a Python exception of the evaluated program (only those the evaluator itself models: KeyError, IndexError, StopIteration)"""
+    """a Python exception of the walked program (only those the walker itself models: KeyError, IndexError, StopIteration and the
+    AttributeError of a string method applied to None)"""
 
     def __init__(self, kind: str) -> None:
         self.kind = kind
@@ -146,26 +166,65 @@ class _Raised(Exception):
 
 _EXC_PARENTS = {"KeyError": ("KeyError", "LookupError", "Exception", "BaseException"),
                 "IndexError": ("IndexError", "LookupError", "Exception", "BaseException"),
-                "StopIteration": ("StopIteration", "Exception", "BaseException")}
-_STR_METHODS = {"startswith", "endswith", "lower", "casefold", "strip", "lstrip", "rstrip", "split", "rsplit", "partition", "rpartition",
-                "removeprefix", "removesuffix", "find", "rfind", "count", "replace"}
+                "StopIteration": ("StopIteration", "Exception", "BaseException"),
+                "AttributeError": ("AttributeError", "Exception", "BaseException")}
 _BUILTINS = {"len": len, "tuple": tuple, "list": list, "set": set, "frozenset": frozenset, "sorted": sorted, "any": None, "all": None,
              "bool": None, "next": None, "isinstance": None, "dict": dict, "reversed": lambda x: list(reversed(x)), "enumerate": lambda x: list(enumerate(x)),
              "zip": lambda *x: list(zip(*x))}
-_CONCRETE = (str, int, bool, type(None), tuple, list, dict, set, frozenset, _Sym)
 
 
 class _Eval:
-    def __init__(self, module: Any, calls: "dict[str, Any]") -> None:
+    def __init__(self, module: Any, calls: "dict[str, Any]", facts: "dict[str, dict[tuple, bool]]") -> None:
         """module: pyindex Module (its functions may be called, its variables read); calls: last name component of a call ->
-        python callable(list of evaluated positional args) that stands for a function outside the module"""
+        python callable(list of positional args) that stands for a function outside the module; facts: tag of an abstract string ->
+        truth assignment of its atoms ("none",) / ("eq", c) / ("pre", c) / ("suf", c)"""
         self.module = module
         self.calls = calls
+        self.facts = facts
         self.steps = 0
         self._globals: dict[str, Any] = {}
 
     # -- values ---------------------------------------------------------------------------------------------------------------
+    def atom(self, x: _AStr, kind: str, c: Any = None) -> bool:
+        f = self.facts[x.tag]
+        if kind == "none":
+            return f[("none",)]
+        if c is None and kind == "eq":
+            return f[("none",)]
+        if not isinstance(c, str):
+            raise _Cannot(f"media type tested against {c!r}")
+        if f[("none",)]:
+            if kind == "eq":
+                return False
+            raise _Raised("AttributeError")
+        if c == "" and kind in ("pre", "suf"):
+            return True
+        if (kind, c) not in f:
+            raise _Cannot(f"media type tested against {c!r}, which is not a literal of the classifier")
+        return f[(kind, c)]
+
+    def affix(self, x: _AStr, kind: str, arg: Any) -> bool:
+        """x.startswith(arg) / x.endswith(arg): arg a literal or a tuple of literals"""
+        if isinstance(arg, tuple):
+            if self.facts[x.tag][("none",)]:
+                raise _Raised("AttributeError")
+            return any(self.atom(x, kind, a) for a in arg)
+        return self.atom(x, kind, arg)
+
+    def member(self, x: _AStr, keys: Any) -> Any:
+        """the element of a literal collection the abstract string equals (one `x == key` atom per key), or _Cannot / KeyError marker"""
+        for k in keys:
+            if not (k is None or isinstance(k, str)):
+                raise _Cannot(f"media type looked up among {k!r}")
+            if self.atom(x, "eq", k):
+                return (k,)
+        return None
+
     def truth(self, v: Any) -> bool:
+        if isinstance(v, _AStr):
+            return not self.atom(v, "none") and not self.atom(v, "eq", "")
+        if isinstance(v, _ASlice):
+            raise _Cannot("truth value of a slice of the media type")
         if isinstance(v, _Sym):
             if v.truthy is None:
                 raise _Cannot(f"truth value of {v.name}")
@@ -343,6 +402,11 @@ class _Eval:
             return v
         if isinstance(e, ast.UnaryOp) and isinstance(e.op, ast.Not):
             return not self.truth(self.expr(e.operand, env))
+        if isinstance(e, ast.UnaryOp) and isinstance(e.op, ast.USub):
+            v = self.expr(e.operand, env)
+            if type(v) is not int:
+                raise _Cannot(f"operand of {norm(e)}")
+            return -v
         if isinstance(e, ast.IfExp):
             return self.expr(e.body if self.truth(self.expr(e.test, env)) else e.orelse, env)
         if isinstance(e, ast.Compare):
@@ -362,12 +426,31 @@ class _Eval:
             base = self.expr(e.value, env)
             if isinstance(base, _Sym):
                 raise _Cannot(f"subscript of {base.name}")
+            if isinstance(base, _AStr):
+                sl = e.slice
+                if isinstance(sl, ast.Slice) and sl.step is None:
+                    lo = self.expr(sl.lower, env) if sl.lower is not None else None
+                    hi = self.expr(sl.upper, env) if sl.upper is not None else None
+                    if lo in (None, 0) and type(hi) is int and hi > 0:
+                        return _ASlice(base, True, hi)
+                    if hi is None and type(lo) is int and lo < 0:
+                        return _ASlice(base, False, -lo)
+                raise _Cannot(f"subscript {norm(e)} of the media type")
+            if isinstance(base, _ASlice):
+                raise _Cannot(f"subscript {norm(e)}")
             if isinstance(e.slice, ast.Slice):
                 lo, hi, stp = (self.expr(x, env) if x is not None else None for x in (e.slice.lower, e.slice.upper, e.slice.step))
                 if not isinstance(base, (str, tuple, list)) or not all(x is None or type(x) is int for x in (lo, hi, stp)):
                     raise _Cannot(f"slice {norm(e)}")
                 return base[lo:hi:stp]
             k = self.expr(e.slice, env)
+            if isinstance(k, _AStr) and isinstance(base, dict):
+                hit = self.member(k, base)
+                if hit is None:
+                    raise _Raised("KeyError")
+                return base[hit[0]]
+            if isinstance(k, (_AStr, _ASlice)):
+                raise _Cannot(f"subscript {norm(e)}")
             try:
                 return base[k]
             except KeyError:
@@ -381,6 +464,8 @@ class _Eval:
         raise _Cannot(f"expression {type(e).__name__}")
 
     def compare(self, op: ast.cmpop, l: Any, r: Any) -> bool:
+        if any(isinstance(x, (_AStr, _ASlice)) for x in (l, r)):
+            return self.compare_abstract(op, l, r)
         if isinstance(op, (ast.Is, ast.IsNot)):
             # identity is modelled for None, the booleans and opaque module-level objects (one object per name)
             if l is None or r is None:
@@ -415,6 +500,34 @@ class _Eval:
             raise _Cannot("comparison") from None
         raise _Cannot(f"operator {type(op).__name__}")
 
+    def compare_abstract(self, op: ast.cmpop, l: Any, r: Any) -> bool:
+        """a comparison that involves the abstract media type: the atom it stands for"""
+        neg = isinstance(op, (ast.IsNot, ast.NotEq, ast.NotIn))
+        if isinstance(op, (ast.Is, ast.IsNot, ast.Eq, ast.NotEq)):
+            x, other = (l, r) if isinstance(l, (_AStr, _ASlice)) else (r, l)
+            if isinstance(other, (_AStr, _ASlice)):
+                raise _Cannot("comparison of two abstract strings")
+            if isinstance(x, _AStr):
+                if other is None:
+                    v = self.atom(x, "none")
+                elif isinstance(other, str) and isinstance(op, (ast.Eq, ast.NotEq)):
+                    v = self.atom(x, "eq", other)
+                elif isinstance(other, _Sym) or isinstance(other, (bool, int, tuple, list, dict, set, frozenset)):
+                    v = False       # a media type is a string or None
+                else:
+                    raise _Cannot("identity of strings")
+            else:
+                if not (isinstance(other, str) and isinstance(op, (ast.Eq, ast.NotEq))):
+                    raise _Cannot("comparison of a slice of the media type")
+                if len(other) != x.n:
+                    # x[:n] == c with len(c) != n: false for every x (a shorter x gives a shorter slice, never a longer one) unless x itself is short
+                    raise _Cannot(f"slice of length {x.n} compared with {other!r}")
+                v = self.atom(x.of, "pre" if x.head else "suf", other)
+            return v != neg
+        if isinstance(op, (ast.In, ast.NotIn)) and isinstance(l, _AStr) and isinstance(r, (tuple, list, set, frozenset, dict)):
+            return (self.member(l, r) is not None) != neg
+        raise _Cannot(f"operator {type(op).__name__} on the media type")
+
     def call(self, c: ast.Call, env: dict[str, Any]) -> Any:
         if any(isinstance(a, ast.Starred) for a in c.args) or any(k.arg is None for k in c.keywords):
             raise _Cannot("argument unpacking")
@@ -445,8 +558,8 @@ class _Eval:
                         return args[1]
                     raise _Raised("StopIteration")
                 if nm == "isinstance":
-                    if len(c.args) == 2 and isinstance(c.args[1], ast.Name) and c.args[1].id == "str" and not isinstance(args[0], _Sym):
-                        return isinstance(args[0], str)
+                    if len(c.args) == 2 and isinstance(c.args[1], ast.Name) and c.args[1].id == "str" and not isinstance(args[0], (_Sym, _ASlice)):
+                        return not self.atom(args[0], "none") if isinstance(args[0], _AStr) else isinstance(args[0], str)
                     raise _Cannot("isinstance")
                 try:
                     return _BUILTINS[nm](*args)
@@ -457,10 +570,13 @@ class _Eval:
             recv = self.expr(c.func.value, env)
             m = c.func.attr
             try:
-                if isinstance(recv, str) and m in _STR_METHODS and not kwargs and all(isinstance(a, (str, int, tuple, type(None))) for a in args):
-                    return getattr(recv, m)(*args)
+                if isinstance(recv, _AStr) and m in ("startswith", "endswith") and not kwargs and len(args) == 1:
+                    return self.affix(recv, "pre" if m == "startswith" else "suf", args[0])
                 if isinstance(recv, dict) and not kwargs:
-                    if m == "get" and 1 <= len(args) <= 2:
+                    if m == "get" and 1 <= len(args) <= 2 and isinstance(args[0], _AStr):
+                        hit = self.member(args[0], recv)
+                        return recv[hit[0]] if hit is not None else (args[1] if len(args) > 1 else None)
+                    if m == "get" and 1 <= len(args) <= 2 and not isinstance(args[0], _ASlice):
                         return recv.get(*args)
                     if m in ("items", "keys", "values") and not args:
                         return list(getattr(recv, m)())
@@ -474,17 +590,18 @@ class _Eval:
         return list(args[0])
 
 
-# the property statement's media-type table: which sources a (parsed, overrides applied) media type may be decoded from.  A type such as
-# text/x+json belongs to two documented classes; the statement does not rank them, so either is admitted there.
-def _documented_sources(parsed: "str | None") -> set:
-    if parsed is None:
+# the property statement's media-type table as a formula over the atoms: which sources a (parsed, overrides applied) media type with the
+# given truth assignment may be decoded from.  A type such as text/x+json belongs to two documented classes; the statement does not rank
+# them, so either is admitted there.
+def _documented_sources(f: "dict[tuple, bool]") -> set:
+    if f[("none",)]:
         return {None}
     out: set = set()
-    if parsed.startswith("text/"):
+    if f[("pre", "text/")]:
         out.add("TEXT_SOURCE")
-    if parsed == "application/json" or parsed.endswith("+json"):
+    if f[("eq", "application/json")] or f[("suf", "+json")]:
         out.add("JSON_SOURCE")
-    if parsed == "application/octet-stream":
+    if f[("eq", "application/octet-stream")]:
         out.add("BYTES_SOURCE")
     return out or {None}
 
@@ -492,17 +609,38 @@ def _documented_sources(parsed: "str | None") -> set:
 DOCUMENTED_AFFIXES = ("text/", "application/json", "application/octet-stream", "+json")
 
 
-def _media_probes(consts: list[str]) -> tuple[list[str], list[str]]:
-    """(simple, all) media-type strings that realise every combination of "equals c", "starts with c", "ends with c'" over the given
-    constants: two strings that no test on these constants can tell apart are decoded alike"""
-    fill = "zz/zz"
-    simple = [fill]
-    for c in consts:
-        simple += [c, c + "zz", fill + c]
-    both = [a + "zz" + b for a in consts for b in consts]
-    seen: set[str] = set()
-    uniq = [x for x in simple + both if not (x in seen or seen.add(x))]
-    return [x for x in uniq if x in set(simple)], uniq
+def _string_classes(consts: list[str], optional: bool) -> "list[tuple[str, dict[tuple, bool]]]":
+    """(description, truth assignment) for every assignment of the atoms none / eq:c / pre:c / suf:c (c in consts, plus eq:"") that some
+    Optional[str] satisfies.  The theory is decided on the constants themselves: None excludes every other atom; x == c0 fixes all atoms to
+    what c0 itself satisfies (so two equalities exclude each other); otherwise no equality holds, the prefixes that hold are exactly the
+    constants that are a prefix of the longest one that holds (two prefixes are compatible only if one is a prefix of the other), likewise
+    the suffixes, and prefix and suffix atoms are independent of each other (a long enough string realises any such pair)."""
+    cs = [c for c in consts if c != ""]
+    atoms = [("none",), ("eq", "")] + [(k, c) for c in cs for k in ("eq", "pre", "suf")]
+    out: list[tuple[str, dict[tuple, bool]]] = []
+    if optional:
+        out.append(("is None", {a: a == ("none",) for a in atoms}))
+    for c0 in [""] + cs:
+        f = {("none",): False, ("eq", ""): c0 == ""}
+        for c in cs:
+            f[("eq", c)] = c == c0
+            f[("pre", c)] = c0.startswith(c)
+            f[("suf", c)] = c0.endswith(c)
+        out.append((f"== {c0!r}", f))
+    for pre in [None] + cs:
+        for suf in [None] + cs:
+            f = {("none",): False, ("eq", ""): False}
+            for c in cs:
+                f[("eq", c)] = False
+                f[("pre", c)] = pre is not None and pre.startswith(c)
+                f[("suf", c)] = suf is not None and suf.endswith(c)
+            desc = " and ".join(([f"starts with {pre!r}"] if pre is not None else []) + ([f"ends with {suf!r}"] if suf is not None else []))
+            out.append(((desc + ", no literal equals it") if desc else "matches no literal", f))
+    uniq: list[tuple[str, dict[tuple, bool]]] = []
+    for d, f in out:
+        if not any(f == g for _, g in uniq):
+            uniq.append((d, f))
+    return uniq
 
 
 def _follow(e: ast.AST | None, lc: Locals, depth: int = 4) -> ast.AST | None:
@@ -524,7 +662,7 @@ def run(rep: Report, ctx: Any) -> str:
                       "variants (`def sync(`) are generated it is the decoded value, never None; the tail (raise UnexpectedStatus if "
                       "client.raise_on_unexpected_status else return None) is emitted unconditionally")
     rep.rule("R04.2", "media type -> source, decided on the result of get_content_type (overrides applied) whatever the document's key is "
-                      "(the classifier is evaluated, not pattern-matched): text/* -> response.text:str, "
+                      "(truth table over the ==/startswith/endswith/is-None atoms of the classifier's literals, paths followed): text/* -> response.text:str, "
                       "application/json and +json -> response.json(), application/octet-stream -> response.content:bytes; no content / no "
                       "schema -> None: every path to property_from_data passes a test sending missing/empty content, and one sending a "
                       "None schema, to `return empty_response(...)`")
@@ -645,11 +783,12 @@ def run(rep: Report, ctx: Any) -> str:
                   f"{nm} pairs {got.get('attribute')} with {got.get('return_type')}", where=f"{rmod.rel}", lhs=got, rhs={"attribute": attr, "return_type": rt})
     rfd = ix.func("responses.response_from_data")
     # The table is not read off the shape of the classifier (lookup table, if-chain, conditional expression, helper predicates are all
-    # the same function) but off what it computes: the classifier is evaluated on its AST for pairs (documented media type, result of
-    # get_content_type) and must return, for every pair, a source the property statement documents for the *second* component - the parsed
-    # media type with content_type_overrides applied.  A test applied to the raw key makes the result depend on the first component and
-    # shows up as a pair that is decoded from the wrong source.  The probe strings realise every equals / starts-with / ends-with
-    # combination over the string constants of the classifier and of the statement's table.
+    # the same decision) but decided as a truth table over guard atoms: the document's key and the result of get_content_type are two
+    # abstract strings known only through the atoms `is None`, `== c`, `.startswith(c)`, `.endswith(c)` over the string literals of the
+    # classifier and of the statement's table.  For every consistent assignment of these atoms (_string_classes) the path the assignment
+    # selects is followed to the source symbol it returns, which must be one the property statement documents for a *parsed* media type
+    # (overrides applied) satisfying the assignment - whatever the key's atoms are: a test applied to the raw key shows up as an assignment
+    # pair decoded from the wrong source.  Nothing is executed and no string is constructed.
     GCT = "get_content_type"
 
     def calls_gct(g: Any) -> bool:
@@ -685,43 +824,51 @@ def run(rep: Report, ctx: Any) -> str:
             if isinstance(n, ast.Constant) and isinstance(n.value, str) and n.value and n.value != doc and n.value not in code_consts:
                 code_consts.append(n.value)
     consts_all = list(DOCUMENTED_AFFIXES) + [c for c in code_consts if c not in DOCUMENTED_AFFIXES]
-    rep.require(len(consts_all) <= 16, "few enough string constants in the media type classifier to enumerate their combinations")
-    simple, probes = _media_probes(consts_all)
+    rep.require(len(consts_all) <= 8, "few enough string literals in the media type classifier to enumerate the assignments of their atoms")
+    parsed_classes = _string_classes(consts_all, optional=True)     # get_content_type returns Optional[str]
+    raw_classes = _string_classes(consts_all, optional=False)       # the document's key is a string
+    if parsed_by_caller:
+        raw_classes = raw_classes[:1]                               # the classifier never sees the key
 
-    def classify(raw: str, parsed: "str | None") -> Any:
+    def classify(raw_f: "dict[tuple, bool]", parsed_f: "dict[tuple, bool]") -> Any:
+        raw_v, parsed_v = _AStr("raw"), _AStr("parsed")
+
         def gct(args: list[Any]) -> Any:
-            if not args or args[0] != raw:
+            if not args or args[0] is not raw_v:
                 raise _Cannot("get_content_type applied to something other than the media type key")
-            return parsed
+            return parsed_v
 
-        ev = _Eval(rmod, {GCT: gct})
+        ev = _Eval(rmod, {GCT: gct}, {"raw": raw_f, "parsed": parsed_f})
         kw = {p.arg: _Sym(f"<{p.arg}>") for p in sb.params}
-        kw[key_param] = parsed if parsed_by_caller else raw
+        kw[key_param] = parsed_v if parsed_by_caller else raw_v
         try:
             v = ev.call_function(sb.node, [], kw)
         except _Raised as r:
             return f"<raises {r.kind}>"
         if isinstance(v, _Sym):
             return v.name
+        if isinstance(v, _AStr):
+            return None if ev.atom(v, "none") else "<the media type itself>"
         # a module-level object that happens to be a literal: named, like the opaque ones, after the variable that holds it
         return next((k for k, g in ev._globals.items() if g is v and v is not None), v if v is None or isinstance(v, (str, int, bool)) else repr(v))
 
     wrong: list[dict[str, Any]] = []
     try:
-        for parsed_p in [None] + probes:
-            for raw_p in ([parsed_p] if parsed_by_caller and parsed_p is not None else simple):
-                got = classify(raw_p, parsed_p)
-                want_p = _documented_sources(parsed_p)
+        for p_desc, p_f in parsed_classes:
+            want_p = _documented_sources(p_f)
+            for r_desc, r_f in raw_classes:
+                got = classify(r_f, p_f)
                 if got not in want_p and len(wrong) < 4:
-                    wrong.append({"media type": raw_p, "get_content_type": parsed_p, "decoded from": got, "documented": sorted(map(str, want_p))})
+                    wrong.append({"document's key": "-" if parsed_by_caller else r_desc, "result of get_content_type": p_desc, "decoded from": got,
+                                  "documented": sorted(map(str, want_p))})
     except _Cannot as e:
-        rep.require(False, f"{short(sb)} evaluable on concrete media types ({e})")
+        rep.require(False, f"tests of {short(sb)} expressible over the atoms ==, startswith, endswith, is None of its literals ({e})")
     rep.check(not wrong, "R04.2", "_source_by_content_type::table",
               f"the media type table differs from the documented one, e.g. {wrong[0] if wrong else None}", where(sb, sb.node), lhs=wrong,
               rhs="text/* -> TEXT_SOURCE, application/json and +json -> JSON_SOURCE, application/octet-stream -> BYTES_SOURCE, anything else / "
                   "unparsable -> None, decided on the result of get_content_type")
-    # counted by role: distinct parsed media types classified (each against every raw key it can come from), not evaluations
-    rep.floor("media_types_classified", len(probes) + 1, 15)
+    # counted by role: consistent truth assignments of the parsed media type's atoms (each against every assignment of the key's), not paths
+    rep.floor("media_types_classified", len(parsed_classes), 15)
     er = ix.func("responses.empty_response")
     # every Response the empty-response constructor (or a private helper of it) builds carries NONE_SOURCE, however the argument gets there
     rcls = rmod.classes.get("Response")
